@@ -498,10 +498,21 @@ def rule_x11(repo):
         isinstance(t, ast.Subscript) and is_name(t.value, 'assigns') for t in n.ast.targets)]
     need(dels, 'backtrack: removal of assignments (`del assigns[..]`) not found')
 
+    def is_level(a):
+        # assigns[..][2], or a helper defined here that returns just that
+        if isinstance(a, ast.Subscript) and isinstance(a.value, ast.Subscript) and is_name(a.value.value, 'assigns'):
+            return True
+        if isinstance(a, ast.Call) and isinstance(a.func, ast.Name):
+            for h in ast.walk(f.node):
+                if isinstance(h, ast.FunctionDef) and h.name == a.func.id and h is not f.node:
+                    rs = [r for r in ast.walk(h) if isinstance(r, ast.Return)]
+                    return len(rs) == 1 and rs[0].value is not None and is_level(rs[0].value)
+        return False
+
     def above(e, pol):
         # <level of the assignment> > lvl   (or >= lvl + 1)
         for op, a, b in comparison_holding(e, pol):
-            lev = isinstance(a, ast.Subscript) and isinstance(a.value, ast.Subscript) and is_name(a.value.value, 'assigns')
+            lev = is_level(a)
             if lev and op is ast.Gt and is_name(b, lvl):
                 return True
             if lev and op is ast.GtE and isinstance(b, ast.BinOp) and isinstance(b.op, ast.Add) and is_name(b.left, lvl) and \
@@ -510,8 +521,20 @@ def rule_x11(repo):
         return False
 
     e_yes = cfg.establishing_edges(above)
+    from ..flow import flow_of
+    flow = flow_of(f.node)
     for d in dels:
         guarded = bool(e_yes) and cfg.path_avoiding(d, skip_edges=e_yes) is None
+        if not guarded:
+            # the names to remove selected beforehand: for name in [n for n in assigns if <level of n> > lvl]: del assigns[name]
+            for lp in ast.walk(f.node):
+                if isinstance(lp, ast.For) and any(x is d.ast for st in lp.body for x in ast.walk(st)):
+                    it = flow.inline(lp.iter)
+                    while isinstance(it, ast.Call) and isinstance(it.func, ast.Name) and it.func.id in ('list', 'tuple', 'sorted') and it.args:
+                        it = it.args[0]
+                    if isinstance(it, (ast.ListComp, ast.GeneratorExp, ast.SetComp)) and len(it.generators) == 1 and len(it.generators[0].ifs) == 1 and \
+                            above(it.generators[0].ifs[0], True):
+                        guarded = True
         exact = True
         res.add('%s :: solve_cnf.backtrack :: removes-above(%s)' % (SAT, lvl), guarded and exact,
                 'an assignment is removed exactly when its level is greater than %s' % lvl if guarded and exact else
